@@ -98,6 +98,20 @@ def generate_once(d, cse, as_dict=False):
     }
     files = fs.files
     fs.close()
+    # the Model-only generator path (cpp.compile) is part of the same promise
+    fs2 = FakeFS()
+    sys.argv = ["generator.py", "--header", fs2.header, "--source", fs2.source, "--namespace", "ns"]
+    cpp.open = fs2.open
+    try:
+        with contextlib.redirect_stdout(io.StringIO()):
+            cpp.compile(b["model"], b["calibration_map"], config=cpp.Config(common_subexpression_elimination=cse))
+    finally:
+        sys.argv = argv
+        del cpp.open
+    files2 = fs2.files
+    fs2.close()
+    files[fs.header] = files[fs.header] + "\n// ---- Model-only header\n" + files2[fs2.header]
+    files[fs.source] = files[fs.source] + "\n// ---- Model-only source\n" + files2[fs2.source]
     return {"header": sha(files[fs.header]), "source": sha(files[fs.source]), "layout": sha(json.dumps(layout, sort_keys=True)),
             "header_text": files[fs.header] if os.environ.get("FSIM_KEEP_TEXT") else None, "source_text": files[fs.source] if os.environ.get("FSIM_KEEP_TEXT") else None}
 
